@@ -16,6 +16,7 @@ sys.path.insert(0, os.path.dirname(os.path.abspath(__file__)))
 sys.path.insert(0, os.path.join(os.path.dirname(os.path.abspath(__file__)), '..', 'tools'))
 import vlib
 import _minicpp as mc
+mc.EXPAND_ALIASES = False      # the constructor's local aliases (other_traits, ...) are read by name below
 
 REPO = os.environ.get('VERIF_REPO', '/repo')
 SRC = os.path.join(REPO, 'include/yorel/yomm2/core.hpp')
